@@ -45,11 +45,13 @@ def walks(nwalk, depth, seed, cfg="cfg/Data_sim.cfg", module="Data_MC.tla"):
     return w
 
 
-def run(pid, tier, seed, execs, mc, np=1, header=None, extra_cov=None, assumptions=None, env=None, level="model_checking", to_events=None):
+def run(pid, tier, seed, execs, mc, np=1, header=None, extra_cov=None, assumptions=None, env=None, level="model_checking", to_events=None, sink=None):
     bld = vlib.build("dbg")
     kw = dict(np=np, header=header or datagen.header_for(), env=env, to_events=to_events or vlib.flat1)
     # pass 1: everything the specification, with the recorded deviations switched on, cannot explain is a violation
     res, acc, rej, states = vlib.run_validate(bld, execs, MODULE, CFG_DEV, tag=pid.lower(), **kw)
+    if sink is not None:
+        sink.update({x: r.get("events") for x, r in res.items()})
     violations = []
     byx = {e["x"]: e for e in execs}
     # pass 2: the accepted traces against the property itself; whatever is rejected now is explained by a
